@@ -474,41 +474,45 @@ func checkC05On(c *Ctx, p *Prog, cfg string) {
 	r.Rule("C05.wait-uses-buffer", "K4", "WaitAvailableKeys returns without reading when usable keys are buffered (len(buf) > 0 && !mustWait) or macro keys are queued", 2)
 	if W := p.Func("core.WaitAvailableKeys"); W != nil {
 		r.Fn(fnName(W))
-		bf := blockFacts(W)
-		okBuf, okMacro := false, false
-		eachInstr(W, func(in ssa.Instruction) {
-			if !isReturn(in) || in.Block() == W.Recover {
-				return
-			}
-			// reached without any read
-			if pathAvoiding(W, nil, func(x ssa.Instruction) bool { return x == in }, func(x ssa.Instruction) bool {
-				return isCallTo(x, "(*core.Keys).readInputFiltered")
-			}) == nil {
-				return
-			}
-			hasBuf, notWait, hasMacro := false, false, false
-			for fc := range bf[in.Block()] {
-				if isFieldLoad(fc.Cond, keysT, "mustWait") && !fc.Val {
-					notWait = true
+		isRead := func(x ssa.Instruction) bool { return isCallTo(x, "(*core.Keys).readInputFiltered") }
+		fld := func(name string) func(ssa.Value) bool {
+			return func(v ssa.Value) bool { return isFieldLoad(v, keysT, name) }
+		}
+		// the assumptions are about the fields on entry: a store to one of them before the read ends them
+		touches := func(names ...string) func(ssa.Instruction) bool {
+			return func(x ssa.Instruction) bool {
+				if isRead(x) {
+					return true
 				}
-				if rel, ok := relOf(fc.Cond, fc.Val); ok && isLenCall(rel.X) && rel.Op == token.GTR {
-					if k, ok := constInt(rel.Y); ok && k == 0 {
-						if isFieldLoad(rel.X.(*ssa.Call).Call.Args[0], keysT, "buf") {
-							hasBuf = true
-						}
-						if isFieldLoad(rel.X.(*ssa.Call).Call.Args[0], keysT, "macroKeys") {
-							hasMacro = true
-						}
+				for _, n := range names {
+					if _, is := isFieldStore(x, keysT, n); is {
+						return true
 					}
 				}
+				return false
 			}
-			if hasBuf && notWait {
-				okBuf = true
+		}
+		// (a) usable keys are buffered: no path to the read
+		okBuf := reachUnder(W, func(c ssa.Value) (bool, bool) {
+			if isFieldLoad(c, keysT, "mustWait") {
+				return false, true
 			}
-			if hasMacro {
-				okMacro = true
-			}
-		})
+			return lenPositiveCond(c, fld("buf"), true)
+		}, touches("buf", "mustWait"), nil) == nil
+		// (b) macro keys are queued: no path to the read
+		okMacro := reachUnder(W, func(c ssa.Value) (bool, bool) {
+			return lenPositiveCond(c, fld("macroKeys"), true)
+		}, touches("macroKeys"), nil) == nil
+		// (c) the buffered keys are the rest of a prefix (mustWait) and no macro key is queued: every
+		// path reads — a return is not reachable without passing the read
+		if okBuf {
+			okBuf = reachUnder(W, func(c ssa.Value) (bool, bool) {
+				if isFieldLoad(c, keysT, "mustWait") {
+					return true, true
+				}
+				return lenPositiveCond(c, fld("macroKeys"), false)
+			}, func(x ssa.Instruction) bool { return isReturn(x) && x.Block() != W.Recover }, touches("macroKeys", "mustWait")) == nil
+		}
 		r.Check(okBuf, "C05.wait-uses-buffer", fnName(W)+":buffered-return"+sfx, p.Pos(W.Pos()), "early return on len(buf) > 0 && !mustWait", "WaitAvailableKeys no longer returns early when usable keys are buffered: a pasted line is consumed one read at a time (blocks although keys are pending)")
 		r.Check(okMacro, "C05.wait-uses-buffer", fnName(W)+":macro-return"+sfx, p.Pos(W.Pos()), "early return on queued macro keys", "WaitAvailableKeys blocks on the terminal although macro keys are queued")
 	} else {
